@@ -12,11 +12,16 @@ reachable state — hence every prefix of every run.  `s.events` is newest first
 result_dep after the M8 expansion), calc_dep, what calc_deps deliver, setup (incl. getargs after expansion; a setup edge of
 a task that is up-to-date does not count: its setup-tasks are never looked at, DESIGN §5 "closure").
 
-Scope (round 4): doit also delivers the values a calc task returned before its execution FAILED (M1 `deliverF`, oracle
-`calcResFail`; the waiting task is reported unmet, what was delivered is still created and processed).  Clause (a) —
-no dependent of a failed task runs — is proved for all inputs, those included.  The "normal report" / completeness
-theorems below, whose observed-dependency relation (`DepObs`) and monitors (`closureOf`) count only what executed /
-up-to-date calc_deps delivered, carry `[NoFailDeliver inp]` (`Proofs/Run.lean`: `calcResFail` empty everywhere). -/
+Deliveries of FAILED calc tasks: doit also delivers the values a calc task returned before its execution failed (M1
+`deliverF`, oracle `calcResFail`; the waiting task is reported unmet, what was delivered is still created and
+processed).  Every theorem below holds for all inputs, those included (no `NoFailDeliver` hypothesis any more).  The
+"normal report" theorems keep their narrow relations (`DepOnE`, `DepObs`: what executed / up-to-date calc_deps
+delivered): the node invariant behind them (`Proofs/C05Unmet.lean`, `NDp`) is stated over the wider observed relation
+`DepObsF` (… or what a calc_dep that was started and then reported failed delivered), and a dependency seen only the wide
+way always comes with the failed calc_dep that delivered it, itself observed the narrow way (`DepObsF.reduce`) — so an
+`unmet` / `skip_ignore` report is still justified by a failed / ignored dependency of the narrow kind.  The monitor
+`monC05ContinueComplete` is unchanged (its `closureOf` / `edgesOf` count finished calc_deps only; what failed calc tasks
+delivered is extra work the run did, reported once all the same by C02's `closureOfF` monitors). -/
 namespace DoitModel.C05
 open DoitModel.Run
 
@@ -85,7 +90,7 @@ theorem C05_continue_never_stops (inp : RunInput) (hc : inp.continue_ = true) (s
 
 /-- a task is reported `unmet` only if one of its direct dependencies (as the run determines them: `DepOnE`) has a
     failure report — so, by induction, only below a task that failed on its own account (all runners) -/
-theorem C05_unmet_has_failed_dep (inp : RunInput) [NoFailDeliver inp] (s : Sys) (hr : PReach inp s ∨ Reach inp s) (t : Name)
+theorem C05_unmet_has_failed_dep (inp : RunInput) (s : Sys) (hr : PReach inp s ∨ Reach inp s) (t : Name)
     (h : Ev.failure t .unmet ∈ s.events) : ∃ d k, DepOnE inp s.events t d ∧ Ev.failure d k ∈ s.events := by
   rcases hr with hr | hr
   · exact unmet_has_failed_dep (preach_invU hr) (preach_invF hr) h
@@ -95,7 +100,7 @@ theorem C05_unmet_has_failed_dep (inp : RunInput) [NoFailDeliver inp] (s : Sys) 
     the closure of the selection has exactly one terminal report (executed, up-to-date, ignored, or failed/unmet) — no
     failure cuts the run short — and the report is `unmet` only for tasks that depend on a task with a failure report;
     every other closure member gets its normal report -/
-theorem C05_continue_complete_serial (inp : RunInput) [NoFailDeliver inp] (hc : inp.continue_ = true) (s : Sys) (hr : Reach inp s)
+theorem C05_continue_complete_serial (inp : RunInput) (hc : inp.continue_ = true) (s : Sys) (hr : Reach inp s)
     (hend : s.rpc = .halted) (hhalt : s.halt = .none) :
     (∀ t, RunCl inp s t → s.events.countP (Ev.isTerminalOf t) = 1) ∧
     (∀ t, Ev.failure t .unmet ∈ s.events → ∃ d k, DepOnE inp s.events t d ∧ Ev.failure d k ∈ s.events) :=
@@ -109,7 +114,7 @@ theorem C05_continue_complete_serial (inp : RunInput) [NoFailDeliver inp] (hc : 
     with `--continue` a failure never sets `_stop_running` (`C05_continue_never_stops`), so `get_next_job` never
     answers "nothing left" because of a failure; that the loop then leaves no closure member unprocessed is the
     `free_proc` / `proc_count` accounting invariant of `Proofs/RunAcct.lean` (`C02_all_processed_parallel`). -/
-theorem C05_continue_complete_parallel (inp : RunInput) [NoFailDeliver inp] (hc : inp.continue_ = true) (s : Sys) (hr : PReach inp s)
+theorem C05_continue_complete_parallel (inp : RunInput) (hc : inp.continue_ = true) (s : Sys) (hr : PReach inp s)
     (hend : s.rpc = .halted) (hhalt : s.halt = .none) :
     (∀ t, RunCl inp s t → s.events.countP (Ev.isTerminalOf t) = 1) ∧
     (∀ t, Ev.failure t .unmet ∈ s.events → ∃ d k, DepOnE inp s.events t d ∧ Ev.failure d k ∈ s.events) :=
@@ -117,7 +122,7 @@ theorem C05_continue_complete_parallel (inp : RunInput) [NoFailDeliver inp] (hc 
    fun _ h => unmet_has_failed_dep (preach_invU hr) (preach_invF hr) h⟩
 
 /-- (c) for every runner (the statement that used to be the placeholder `def C05_continue_complete_full`) -/
-theorem C05_continue_complete (inp : RunInput) [NoFailDeliver inp] (hc : inp.continue_ = true) (s : Sys)
+theorem C05_continue_complete (inp : RunInput) (hc : inp.continue_ = true) (s : Sys)
     (hr : PReach inp s ∨ Reach inp s) (hend : s.rpc = .halted) (hhalt : s.halt = .none) :
     (∀ t, RunCl inp s t → s.events.countP (Ev.isTerminalOf t) = 1) ∧
     (∀ t, Ev.failure t .unmet ∈ s.events → ∃ d k, DepOnE inp s.events t d ∧ Ev.failure d k ∈ s.events) := by
@@ -175,18 +180,18 @@ theorem C05_monitor_serial_stops (inp : RunInput) (s : Sys) (hr : Reach inp s) :
     setup-tasks of a task reported `unmet` / ignored in the second `select_task` pass) has exactly one terminal report
     in the trace, and a task reported `unmet` has a failed task among the direct dependencies the trace determines
     (`edgesOf`).  The fixed-point iterations of the monitor need no more than `nTasks` rounds (`Proofs/C05Fuel.lean`). -/
-theorem C05_monitor_continue_complete_serial (inp : RunInput) [NoFailDeliver inp] (s : Sys) (hr : Reach inp s) (nTasks : Nat)
+theorem C05_monitor_continue_complete_serial (inp : RunInput) (s : Sys) (hr : Reach inp s) (nTasks : Nat)
     (hb : namesBelow inp nTasks = true) (exit : Nat) (hx : exit ≤ 2 → s.halt = .none) :
     monC05ContinueComplete inp nTasks (trace inp s) exit = true :=
   monC05ContinueComplete_of_inv (allInv_serial hr) (reach_invC hr) (endFacts_serial hr) (below_of hb) exit hx
 
-theorem C05_monitor_continue_complete_parallel (inp : RunInput) [NoFailDeliver inp] (s : Sys) (hr : PReach inp s) (nTasks : Nat)
+theorem C05_monitor_continue_complete_parallel (inp : RunInput) (s : Sys) (hr : PReach inp s) (nTasks : Nat)
     (hb : namesBelow inp nTasks = true) (exit : Nat) (hx : exit ≤ 2 → s.halt = .none) :
     monC05ContinueComplete inp nTasks (trace inp s) exit = true :=
   monC05ContinueComplete_of_inv (allInv_parallel hr) (preach_invC hr) (endFacts_parallel hr) (below_of hb) exit hx
 
 /-- … in particular with the exit code of the model (`exitCode`: 3 after an internal error) -/
-theorem C05_monitor_continue_complete_exit (inp : RunInput) [NoFailDeliver inp] (s : Sys) (hr : PReach inp s ∨ Reach inp s) (nTasks : Nat)
+theorem C05_monitor_continue_complete_exit (inp : RunInput) (s : Sys) (hr : PReach inp s ∨ Reach inp s) (nTasks : Nat)
     (hb : namesBelow inp nTasks = true) : monC05ContinueComplete inp nTasks (trace inp s) (exitCode s) = true := by
   rcases hr with hr | hr
   · exact C05_monitor_continue_complete_parallel inp s hr nTasks hb _ exit_le_two
@@ -202,7 +207,7 @@ theorem C05_complete_means_halted (inp : RunInput) (s : Sys) (hr : PReach inp s 
 
 /-- the sharper form of `C05_unmet_has_failed_dep` behind the monitor: the failed dependency is one the run has OBSERVED
     (`DepObs`: task_dep, calc_dep, what calc_deps with a finish report in the event list delivered) or a setup-task -/
-theorem C05_unmet_has_observed_failed_dep (inp : RunInput) [NoFailDeliver inp] (s : Sys) (hr : PReach inp s ∨ Reach inp s) (t : Name)
+theorem C05_unmet_has_observed_failed_dep (inp : RunInput) (s : Sys) (hr : PReach inp s ∨ Reach inp s) (t : Name)
     (h : Ev.failure t .unmet ∈ s.events) :
     ∃ d k, (DepObs inp s.events t d ∨ d ∈ inp.setup t) ∧ Ev.failure d k ∈ s.events := by
   rcases hr with hr | hr
@@ -212,7 +217,7 @@ theorem C05_unmet_has_observed_failed_dep (inp : RunInput) [NoFailDeliver inp] (
 /-- why a task got a failure or `skip_ignore` report (all runners, every reachable state): all its setup-tasks had been
     processed (second `select_task` pass), or it is ignored itself / its status is `error`, or one of its observed
     first-stage dependencies has a failure / `skip_ignore` report, or `select_task` had chosen it for execution -/
-theorem C05_abnormal_report_justified (inp : RunInput) [NoFailDeliver inp] (s : Sys) (hr : PReach inp s ∨ Reach inp s) (u : Name)
+theorem C05_abnormal_report_justified (inp : RunInput) (s : Sys) (hr : PReach inp s ∨ Reach inp s) (u : Name)
     (h : (∃ k, Ev.failure u k ∈ s.events) ∨ Ev.skipIgn u ∈ s.events) :
     (∀ d ∈ inp.setup u, (stOf s d).finished = true) ∨ inp.ignored u = true ∨ inp.statusOf u = .error ∨
     (∃ p, DepObs inp s.events u p ∧ ((∃ k, Ev.failure p k ∈ s.events) ∨ Ev.skipIgn p ∈ s.events)) ∨
@@ -284,6 +289,19 @@ example : ∃ s, PReach { exFail with runner := .thread, numProc := 2 } s ∧ s.
 /-- without `--continue` the serial run stops after the failure: the independent task `5` is never started -/
 example : ∃ s, Reach { exFail with continue_ := false } s ∧ s.rpc = .halted ∧
     s.events.contains (Ev.failure 0 .failed) = true ∧ s.events.any (Ev.isStartOf 5) = false :=
+  ⟨_, autoRun_reach (by decide) false false 600 _ Reach.init, by decide +kernel⟩
+
+/-- a calc_dep (`0`) that fails AFTER its first action has returned values (`calcResFail 0` names `2`): the values are
+    delivered all the same — `2` is created and executed — and the task that waited for them (`1`) is reported unmet,
+    justified by its failed calc_dep `0` (`C05_unmet_has_failed_dep` with no hypothesis on `calcResFail`) -/
+def exFailDeliver : RunInput :=
+  { taskDep := fun _ => [], calcDep := fun n => if n = 1 then [0] else [], setup := fun _ => [],
+    calcResFail := fun n => if n = 0 then { tasks := [2] } else {},
+    sel := [1], continue_ := true, outcome := fun n => if n = 0 then .failed else .ok }
+
+example : ∃ s, Reach exFailDeliver s ∧ s.rpc = .halted ∧ s.halt = .none ∧
+    s.events.contains (Ev.failure 0 .failed) = true ∧ s.events.contains (Ev.success 2) = true ∧
+    s.events.contains (Ev.failure 1 .unmet) = true :=
   ⟨_, autoRun_reach (by decide) false false 600 _ Reach.init, by decide +kernel⟩
 
 end DoitModel.C05
